@@ -43,14 +43,17 @@ def num(v: Any, *, exact: bool = False, tol: float = 1e-7) -> dict:
 
 
 def nums(a: Any, **kw: Any) -> Any:
-    """Project an array (nested lists) of floats."""
+    """Project an array (nested lists) of floats; a missing array becomes []."""
     if a is None:
         return []
-    if hasattr(a, "tolist"):
-        a = a.tolist()
-    if isinstance(a, (list, tuple)):
-        return [nums(x, **kw) for x in a]
-    return num(a, **kw)
+
+    def rec(x):
+        if hasattr(x, "tolist"):
+            x = x.tolist()
+        if isinstance(x, (list, tuple)):
+            return [rec(y) for y in x]
+        return num(x, **kw)
+    return rec(a)
 
 
 # ----------------------------------------------------------------------------- findings
@@ -100,6 +103,8 @@ def _drive_one(args):
     prop_mod, scenario = args
     import importlib
     mod = importlib.import_module(prop_mod)
+    import warnings
+    warnings.simplefilter("ignore")
     try:
         trace, features = mod.drive(scenario)
         return trace, features, None
